@@ -323,21 +323,29 @@ def run_multi(rec, tier, seed):
         deep = [r for r in interior if all(_expect(r[0], r[2], r[3], w1, w2, 1)[0] == "keep" for (w1, w2) in ((5, 4), (4, 5)))]
         rs2 = [r for r in deep if r[0] == 0][:6] + [r for r in deep if r[0] == 2][:4]
         df = pandas.DataFrame(dict(chrom=[r[1] for r in rs2], start=[r[2] for r in rs2], end=[r[3] for r in rs2]))
-        for inp in ("file", "dict"):
+        for inp in ("file", "dict", "file+dict", "dict+file"):
             for jit in (0, 1):
                 for iw2, ow2 in ((3, 2), (2, 3), (4, 4), (5, 1)):
                     for tidx in (0, 1):
-                        a = dict(sequences=fa, signals=bws, in_signals=bws[::-1]) if inp == "file" else dict(sequences=dseq, signals=dsig, in_signals=dsig[::-1])
+                        # every track of a list is read from what it is: bigWig files and in-memory dictionaries may be mixed in one list
+                        a = {"file": dict(sequences=fa, signals=bws, in_signals=bws[::-1]),
+                             "dict": dict(sequences=dseq, signals=dsig, in_signals=dsig[::-1]),
+                             "file+dict": dict(sequences=fa, signals=[bws[0], dsig[1]], in_signals=[bws[1], dsig[0]]),
+                             "dict+file": dict(sequences=dseq, signals=[dsig[0], bws[1]], in_signals=[dsig[1], bws[0]])}[inp]
                         exp = []
-                        thr = None
+                        # the count threshold is the median total of the loci: some loci in the middle of the table are rejected by the
+                        # filter, and every returned tensor (sequence, signal, control signal) must drop exactly those rows
+                        tots = sorted(float(_expect(r[0], r[2], r[3], iw2, ow2, jit)[2][tidx].sum()) for r in rs2
+                                      if _expect(r[0], r[2], r[3], iw2, ow2, jit)[0] == "keep")
+                        thr = tots[len(tots) // 2]
+                        n_rejected = 0
                         for r in rs2:
                             cls, eseq, esig = _expect(r[0], r[2], r[3], iw2, ow2, jit)
                             if cls != "keep":
                                 continue
                             tot = float(esig[tidx].sum())
-                            if thr is None:
-                                thr = tot
                             if (tidx == 0 and tot < thr) or (tidx == 1 and tot > thr):
+                                n_rejected += 1
                                 continue
                             mid = r[2] + (r[3] - r[2]) // 2
                             lo_i, hi_i = mid - iw2 // 2 - jit, mid + iw2 // 2 + jit + iw2 % 2
@@ -347,7 +355,8 @@ def run_multi(rec, tier, seed):
                         st, val = call(extract_loci, df, in_window=iw2, out_window=ow2, max_jitter=jit, target_idx=tidx, **a, **kw)
                         case = dict(fn="extract_loci", input=inp, in_window=iw2, out_window=ow2, max_jitter=jit, target_idx=tidx, in_signals=True,
                                     loci=[(r[1], r[2], r[3]) for r in rs2], threshold=thr)
-                        rec.case(1, 1)
+                        rec.case(1, int(n_rejected > 0))
+                        rec.count("loci_rejected_by_count_filter_with_in_signals", n_rejected)
                         if st != "ok" or len(val) != 3:
                             rec.violation("extract_loci:in_signals_raises", case, observed=val if st != "ok" else len(val))
                             continue
@@ -356,7 +365,7 @@ def run_multi(rec, tier, seed):
                                 not numpy.array_equal(y.numpy().astype(numpy.float32), numpy.stack([e[1] for e in exp])):
                             rec.violation("extract_loci:wrong_rows_with_in_signals_or_target_idx", case, expected=len(exp), observed=list(X.shape))
                             continue
-                        if not numpy.array_equal(z.numpy().astype(numpy.float32), numpy.stack([e[2] for e in exp])):
+                        if tuple(z.shape) != (len(exp),) + exp[0][2].shape or not numpy.array_equal(z.numpy().astype(numpy.float32), numpy.stack([e[2] for e in exp])):
                             rec.violation("extract_loci:wrong_in_signal", case, expected=exp[0][2], observed=z[0])
         # custom alphabet order and ignore characters (FASTA input)
         st, X = call(extract_loci, df, fa, in_window=4, alphabet=["T", "G", "C", "A"], ignore=["N"])
